@@ -140,6 +140,12 @@ def handle : List String → String
     | some ss, some n, some tbl =>
       showRes (fun (p : List Nat × List Int) => s!"fl={showNats p.1} tbl={showInts p.2}") (makeFree (ss / 4) tbl n)
     | _, _, _ => "bad-op"
+  | ["atab", ss, msat, ml, tbl] =>
+    match ss.toNat?, parseInts msat, parseInts ml, parseInts tbl with
+    | some ss, some msat, some ml, some tbl =>
+      showRes (fun (p : List Int × List Int × List Int) => s!"sat={showInts p.1} msat={showInts p.2.1} ml={showInts p.2.2}")
+        (allocTables ss (tbl.length + msat.length + 16) tbl msat ml)
+    | _, _, _, _ => "bad-op"
   | ["free", start, tbl] =>
     match start.toInt?, parseInts tbl with
     | some s, some tbl => showRes (fun t => s!"tbl={showInts t}") (freeSectors tbl s)
